@@ -35,6 +35,7 @@ pub fn run_once(p: &CfgParams, hist: &[usize]) -> StepReport {
         let mut sp = p.seq.clone();
         sp.cfg = *c;
         sp.reopen_cfg = Some(*c);
+        sp.oom_tolerant = c.cache < p.oom_allowed_below;
         let r = seq::run_once(&sp, hist);
         *counters.entry("configuration_runs".into()).or_insert(0) += 1;
         match r.status.as_str() {
@@ -59,6 +60,10 @@ pub fn run_once(p: &CfgParams, hist: &[usize]) -> StepReport {
         }
         for (k, v) in &r.counters {
             *counters.entry(k.clone()).or_insert(0) += v;
+        }
+        if r.counters.get("permitted_out_of_memory_answers").copied().unwrap_or(0) > 0 {
+            // this configuration legitimately answered differently somewhere; it was judged against the model
+            continue;
         }
         match &first {
             None => first = Some((*c, r)),
